@@ -26,7 +26,7 @@ def sh(cmd, cwd=None, env=None, timeout=3600):
 
 
 def main():
-    pid, src = sys.argv[1], sys.argv[2]
+    pid, src = sys.argv[1], os.path.abspath(sys.argv[2])
     also = []
     if '--also' in sys.argv:
         also = sys.argv[sys.argv.index('--also') + 1].split(',')
@@ -90,7 +90,7 @@ def main():
 
 
 def finish(rec, out, src):
-    if os.path.exists(os.path.join(src, 'demo.py')):
+    if os.path.exists(os.path.join(src, 'demo.py')) and os.path.abspath(src) != os.path.abspath(out):
         shutil.copy(os.path.join(src, 'demo.py'), os.path.join(out, 'demo.py'))
     meta = {}
     try:
